@@ -37,9 +37,32 @@ struct vt_t
     void (*swap)(void*, void*);
     void (*corrupt)(void*, unsigned, unsigned);
     unsigned n_corrupt;
+    void (*scribble)(void*, unsigned, unsigned);
+    unsigned n_scribble;
 };
 
 static void no_corrupt(void*, unsigned, unsigned) {}
+
+// "any object contents": one scalar leaf (never a bool) gets an extreme or arbitrary bit pattern; the object stays a live,
+// valid C++ object, so it must serialise (or report a documented error), copy, move and destroy without UB
+static void scrib(void* p, std::size_t n, unsigned v)
+{
+    auto* q = static_cast<unsigned char*>(p);
+    if (n == 0) { return; }
+    switch (v & 7u)
+    {
+    case 0: std::memset(q, 0xFF, n); break;
+    case 1: std::memset(q, 0, n); q[n - 1] = 0x80; break;
+    case 2: std::memset(q, 0xFF, n); q[n - 1] = 0x7F; break;
+    case 3: std::memset(q, 0, n); q[n - 1] = 0x7F; if (n > 1) { q[n - 2] = (n == 8) ? 0xF0 : 0x80; } break;
+    case 4: std::memset(q, 0, n); q[n - 1] = 0xFF; if (n > 1) { q[n - 2] = (n == 8) ? 0xF0 : 0x80; } break;
+    case 5: std::memset(q, 0, n); q[n - 1] = 0x7F; if (n > 1) { q[n - 2] = 0x7F; } break;
+    case 6: std::memset(q, 0, n); q[0] = 1; break;
+    default:
+        for (std::size_t i = 0; i < n; i++) { v = v * 1103515245u + 12345u; q[i] = static_cast<unsigned char>(v >> 16); }
+        break;
+    }
+}
 
 #include "types_cpp_includes.inc"
 
@@ -64,10 +87,11 @@ struct Ops
     static void  move_assign(void* d, void* s) { *static_cast<T*>(d) = std::move(*static_cast<T*>(s)); }
     static void* clone(const void* s) { return new T(*static_cast<const T*>(s)); }
     static void  swap(void* a, void* b) { using std::swap; swap(*static_cast<T*>(a), *static_cast<T*>(b)); }
-    static vt_t  make(const char* name, void (*corrupt)(void*, unsigned, unsigned), unsigned n_corrupt)
+    static vt_t  make(const char* name, void (*corrupt)(void*, unsigned, unsigned), unsigned n_corrupt,
+                      void (*scribble)(void*, unsigned, unsigned), unsigned n_scribble)
     {
         return vt_t{name, T::_traits_::ExtentBytes, T::_traits_::SerializationBufferSizeBytes, create, destroy, ser, des, assign,
-                    move_assign, clone, swap, corrupt ? corrupt : no_corrupt, n_corrupt};
+                    move_assign, clone, swap, corrupt ? corrupt : no_corrupt, n_corrupt, scribble ? scribble : no_corrupt, n_scribble};
     }
 };
 
@@ -80,7 +104,7 @@ enum { ST_FRESH = 0, ST_VALID = 1, ST_FAILED = 2, ST_CORRUPT = 3, ST_MOVED_FROM 
 struct slot_t { void* obj; int state; };
 
 static std::vector<std::vector<slot_t>> SLOTS;
-static unsigned long n_ops, n_des_ok, n_des_err, n_ser_ok, n_ser_err, n_reused, n_after_failed, n_into_corrupt, n_corrupt_ser, n_small_cap,
+static unsigned long n_scribbled, n_ops, n_des_ok, n_des_err, n_ser_ok, n_ser_err, n_reused, n_after_failed, n_into_corrupt, n_corrupt_ser, n_small_cap,
     n_copy, n_move, n_reconstruct, n_selfassign, n_swap, n_into_moved_from, n_ser_after_failed;
 static unsigned long err_hist[16];
 static long          op_index = -1;
@@ -234,6 +258,13 @@ int main(int argc, char** argv)
                 n_copy++;
             }
             break;
+        case 11:
+            if (t->n_scribble > 0 && (s->state == ST_VALID || s->state == ST_FRESH || s->state == ST_FAILED))
+            {
+                t->scribble(s->obj, (arg >> 16) & 0xFFFFu, arg & 0xFFFFu);
+                n_scribbled++;
+            }
+            break;
         case 5:
             if (t->n_corrupt > 0 && (s->state == ST_VALID || s->state == ST_FRESH))
             {
@@ -286,9 +317,9 @@ int main(int argc, char** argv)
     std::printf("STATS {\"ops\":%lu,\"des_ok\":%lu,\"des_err\":%lu,\"ser_ok\":%lu,\"ser_err\":%lu,\"decode_into_used_slot\":%lu,"
                 "\"decode_after_failed_decode\":%lu,\"decode_into_corrupted_slot\":%lu,\"decode_into_moved_from\":%lu,\"ser_of_corrupted\":%lu,"
                 "\"ser_after_failed_decode\":%lu,\"ser_small_cap\":%lu,\"copy\":%lu,\"move\":%lu,\"reconstruct\":%lu,\"self_assign\":%lu,\"swap\":%lu,"
-                "\"err_bad_array_length\":%lu,\"err_bad_union_tag\":%lu,\"err_bad_delimiter_header\":%lu,\"err_buffer_too_small\":%lu}\n",
+                "\"err_bad_array_length\":%lu,\"err_bad_union_tag\":%lu,\"err_bad_delimiter_header\":%lu,\"err_buffer_too_small\":%lu,\"scalar_leaf_scribbled\":%lu}\n",
                 n_ops, n_des_ok, n_des_err, n_ser_ok, n_ser_err, n_reused, n_after_failed, n_into_corrupt, n_into_moved_from, n_corrupt_ser,
                 n_ser_after_failed, n_small_cap, n_copy, n_move, n_reconstruct, n_selfassign, n_swap, err_hist[10], err_hist[11], err_hist[12],
-                err_hist[3]);
+                err_hist[3], n_scribbled);
     return 0;
 }
